@@ -74,7 +74,7 @@ def r13_2_validators(ctx):
     for vname, ref, alphabet, maxlen, extra in (
         ("valid_base16", TL.valid_b16, ["0", "a", "F", "g", "x", "\n", " "], 4, ["0x00", "ABCDEF", "abcde", "AbCdEf01"]),
         ("valid_base64", TL.valid_b64, ["A", "z", "9", "+", "/", "=", "\n", "-"], 4, ["Zm9v\n", "Zm9v", "Zm8=", "Zg==", "Zg=", "Zm9vYg==", "Zm9vYmE=", "Zm9vYmFy", "====", "Zm9v=", "\nZm9v", "Zm 9v"]),
-        ("valid_base32", TL.valid_b32, ["A", "7", "2", "=", "a", "1", "\n"], 4, ["MZXW6===", "MZXW6", "MZXW6YQ=", "MZXW6YQ", "MZXW6YTB", "MY======", "MY", "MZXQ====", "MZXQ", "M", "MZX", "MZXW6Y", "MZXW6===\n", "MY=====", "MY=======", "ME======ME"]),
+        ("valid_base32", TL.valid_b32, ["A", "7", "2", "=", "a", "1", "\n"], 4, ["MZXW6===", "MZXW6", "MZXW6YQ=", "MZXW6YQ", "MZXW6YTB", "MY======", "MY", "MZXQ====", "MZXQ", "M", "MZX", "MZXW6Y", "MZXW6===\n", "MY=====", "MY=======", "ME======ME", "mzxw6ytb", "MZXW6YTBmzxw6ytb", "MZXW6YTBMZXW6YTB", "MZXW6YTBMZ"]),
     ):
         f = ctx.model.find_func(vname, "pyteal.types")
         ctx.analysed(f.fq)
